@@ -55,10 +55,9 @@ fn srcs_of(set: &ModuleSet, one: bool, garbage: &[usize]) -> Vec<Src> {
     let mut texts = set.texts();
     for g in garbage {
         if let Some(t) = texts.get_mut(*g) {
-            let mut at = t.len() / 2;
-            while !t.is_char_boundary(at) {
-                at += 1;
-            }
+            // directly after the module header, in front of the first assignment: no
+            // construct (MACRO body, comment, string) can swallow it there
+            let at = set.modules[*g].render(&set.modules).header.end;
             t.insert_str(at, " ::= `?? ");
         }
     }
